@@ -345,13 +345,14 @@ def E1(ctx):
     if len(ex) < 2:
         ctx.bad("E1", fk, "Schedule::backtrack no longer marks alternatives (explore sites: %d)" % len(ex), fn.loc(), detail="shape")
         return
-    at_bound = assume_all(assume_discr("preemption_bound", 1),
+    PB = body.local_name(3) or "preemption_bound"
+    at_bound = assume_all(assume_discr(PB, 1),
                           assume_expr(lambda e: True if field_cmp("Eq", SCH, "preemptions")(e) else
                                       (True if field_cmp("Le", SCH, "preemptions")(e) else None)))
-    below = assume_all(assume_discr("preemption_bound", 1),
+    below = assume_all(assume_discr(PB, 1),
                        assume_expr(lambda e: False if field_cmp("Eq", SCH, "preemptions")(e) else
                                    (True if field_cmp("Le", SCH, "preemptions")(e) else None)))
-    nobound = assume_discr("preemption_bound", 0)
+    nobound = assume_discr(PB, 0)
     r_at, _ = PEval(body, at_bound).run()
     r_below, _ = PEval(body, below).run()
     r_none, _ = PEval(body, nobound).run()
@@ -363,14 +364,14 @@ def E1(ctx):
         ctx.bad("E1", fk, "preemption bound not enforced exactly: armed at the bound=%s, armed below=%s, armed unbounded=%s" %
                 (any(b in r_at for b in ex), all(b in r_below for b in ex), all(b in r_none for b in ex)), fn.loc(), detail="bound")
     ps = panic_sites(prog, fk, "actual = ")
-    over = assume_all(assume_discr("preemption_bound", 1), assume_expr(lambda e: False if field_cmp("Le", SCH, "preemptions")(e) else None))
+    over = assume_all(assume_discr(PB, 1), assume_expr(lambda e: False if field_cmp("Le", SCH, "preemptions")(e) else None))
     r_over, _ = PEval(body, over).run()
     if ps and all(b in r_over for b, _ in ps) and not any(b in r_over for b in ex):
         ctx.ok("E1", fk + ":assert", "exceeding the bound is an internal error", [site_str(prog, fk, ps[0][0])])
     else:
         ctx.bad("E1", fk, "the invariant `preemptions <= bound` is no longer asserted before arming alternatives", fn.loc(), detail="assert")
     # explore is applied to the requested thread when it is enabled, to all otherwise
-    one = [b for b in ex if "thread_id" in canon(arg_expr(body, body.term(b), 0))]
+    one = [b for b in ex if (body.local_name(2) or "thread_id") in canon(arg_expr(body, body.term(b), 0))]
     allb = [b for b in ex if b not in one]
     g_one = one and all(unreachable_if(body, b, assume_calls({PT + "::is_enabled": False})) for b in one)
     g_all = allb and all(unreachable_if(body, b, assume_calls({PT + "::is_enabled": True})) for b in allb)
@@ -448,11 +449,19 @@ def E3(ctx):
         return
     body = fn.body
     # local `initial`
-    li = [i for i, l in enumerate(body.locals) if l.get("name") == "initial"]
+    # the "default choice" local: the one initialised with Some(<active thread id>) (whatever it is called)
+    li = []
+    for l, ds in body.defs().items():
+        for d in ds:
+            if d[0] == "stmt" and d[3]["k"] == "=":
+                e = body.expr_of_rvalue(d[3]["rv"])
+                if e[0] == "agg" and e[2] == "Some" and mentions_call(e, "rt::thread::Set::active_id") and body.local_name(l):
+                    li.append(l)
     if not li:
-        ctx.missing("E3", fk, "local `initial` not found")
+        ctx.missing("E3", fk, "no local initialised with Some(active thread) found (the scheduler's default choice)")
         return
     li = li[0]
+    lname = body.local_name(li)
     defs = body.defs().get(li, [])
     some_active = []
     none_defs = []
@@ -480,7 +489,7 @@ def E3(ctx):
             for s in blk["stmts"]:
                 if s["k"] == "=" and s["lhs"]["l"] == 0 and s["rv"]["k"] == "agg" and s["rv"].get("variant") == "Active":
                     g = [canon(ge) for (ge, pol, v, sb) in guard_atoms(cb, b) if pol is True]
-                    if any("initial" in x and "eq(" in x for x in g):
+                    if any(lname in x and "eq(" in x for x in g):
                         act = True
     if ok and recv_ok and act:
         ctx.ok("E3", fk, "default = the active thread unless it is not runnable; the default is seeded as Thread::Active", [site_str(prog, fk, some_active[0])])
@@ -562,7 +571,7 @@ def B1(ctx):
             if prog.callee_key(c) == SCH + "::backtrack":
                 primary = b if primary is None else min(primary, b)
         zero_tests = [b for b in range(body.n) if body.term(b)["k"] == "switch" and
-                      (lambda e: e[0] == "binop" and e[1] == "Eq" and canon(strip(e[2])) in ("point", "phi(point)") and canon(e[3]) == "0")(body.expr_of_operand(body.term(b)["op"]))]
+                      (lambda e: e[0] == "binop" and e[1] == "Eq" and canon(strip(e[2])) in (body.local_name(2), "phi(%s)" % body.local_name(2)) and canon(e[3]) == "0")(body.expr_of_operand(body.term(b)["op"]))]
         skip_edges = []
         for b in range(body.n):
             t = body.term(b)
